@@ -12,12 +12,22 @@
     - dispatch (RustExec): the wrapper of a virtual function loads the object's vftable pointer (the
       word at the object's address when the pointer is its own first field, the base sub-object's
       accessor otherwise), and makes exactly one call, to the entry stored in its slot, with the
-      receiver's address first and the arguments in declared order, returning the callee's result. *)
+      receiver's address first and the arguments in declared order, returning the callee's result;
+    - on the emitted text (EmitFn*.v; readers that only look at tokens): [C04_emitted_vftable_struct]:
+      for every type of an accepted build that declares a vftable block, the module's file contains
+      the struct [<T>Vftable] (found by name), [repr(C, align(ptr))], with exactly one field per
+      slot of the resolved table, in slot order, each an [unsafe extern "<cc>" fn(..)] pointer whose
+      ABI string, parameter and return types are those of the slot's function
+      ([C04_vftable_item_struct]); the wrapper of a virtual function is the vftable template
+      [(self.vftable().<name>)(receiver, args..)] ([C05_wrapper_shape]), and the ABI of the slot
+      field is the one the function record carries ([C04_slot_and_wrapper_abi]). *)
 From Coq Require Import List NArith ZArith Bool String Lia.
 From PyxisModel Require Import Base Grammar SemTypes Registry Sem SemLemmas FunctionLemmas
      VftableLemmas PlacementLemmas RustExec ExecLemmas WholeBuild Examples.
 Import ListNotations.
 Local Open Scope N_scope.
+
+From PyxisModel Require EmitReaders EmitFnReaders EmitFnShape EmitFnFinal.
 
 Theorem C04_slots : forall R scope fs out,
   foldM (convert_one R scope) fs [] = Ok out ->
@@ -139,3 +149,71 @@ Example C04_whole_build_example :
     reg_get (st_reg st) ["m"; "Base"]%string = Some it /\ it_state it = Resolved r /\
     gt_stmts td0 = s :: rest /\ gs_field s = GVftable gfs /\ List.length gfs = 2%nat.
 Proof. vm_compute. do 10 eexists. repeat split; reflexivity. Qed.
+
+Theorem C04_emitted_vftable_struct :
+  forall (order : schedule) (ptr : N) (mods : list (path * gmodule)) (st0 st : sstate)
+      (files : list (string * Sexp.sexp)) (p : path) (it0 : item) (gd : gitemdef) 
+      (td0 : gtypedef) (it : item) (r : resolved) (parent : path) (stm : gstatement)
+      (rest : list gstatement) (gfs : list gfunction),
+    input_state ptr mods = Ok st0 ->
+    collision_free (st_reg st0) ->
+    pyxis_resolve order ptr mods = BOk st ->
+    Emit.write_all st = Ok files ->
+    reg_get (st_reg st0) p = Some it0 ->
+    it_state it0 = Unresolved gd ->
+    gi_inner gd = GIType td0 ->
+    reg_get (st_reg st) p = Some it ->
+    it_state it = Resolved r ->
+    path_parent p = Some parent ->
+    parent <> [] ->
+    alookup parent (st_modules st0) <> None ->
+    gt_stmts td0 = stm :: rest ->
+    gs_field stm = GVftable gfs ->
+    exists
+      (tname : string) (vp : path) (fs : list sfunction) (td : type_def) (vt : tvftable) 
+    (f : Sexp.sexp) (items : list Sexp.sexp) (s : Sexp.sexp) (efs : list EmitReaders.efield),
+      path_last p = Some tname /\
+      vftable_path p = Some vp /\
+      rs_inner r = IType td /\
+      td_vftable td = Some vt /\
+      vt_functions vt = fs /\
+      vt_type vt = TConstPtr (TRaw vp) /\
+      In (Emit.out_path parent, f) files /\
+      EmitReaders.file_items f = Some items /\
+      EmitReaders.find_struct (tname +++ "Vftable") items = Some s /\
+      EmitReaders.struct_name s = Some (tname +++ "Vftable") /\
+      EmitReaders.struct_vis s = Some (gi_vis gd) /\
+      EmitReaders.struct_repr s = Some (EmitReaders.ReprAlign (reg_ptr (st_reg st))) /\
+      EmitReaders.struct_fields s = Some efs /\ Forall2 (EmitFnShape.slot_of_function p) fs efs.
+Proof. exact EmitFnFinal.emitted_vftable_whole_build. Qed.
+Print Assumptions C04_emitted_vftable_struct.
+
+Theorem C04_vftable_item_struct :
+  forall (R R' : registry) (fuel : nat) (owner : path) (v : vis) (fs : list sfunction) 
+      (vit : item) (items : list Sexp.sexp),
+    vftable_item R owner v fs = Some vit ->
+    Emit.build_item R' fuel vit = Ok items ->
+    exists
+      (parent : path) (tname : string) (vp : path) (s : Sexp.sexp) (rest : list Sexp.sexp) 
+    (efs : list EmitReaders.efield),
+      path_parent owner = Some parent /\
+      path_last owner = Some tname /\
+      vftable_path owner = Some vp /\
+      vp = path_join parent (tname +++ "Vftable") /\
+      it_path vit = vp /\
+      items = s :: rest /\
+      EmitReaders.item_kind s = Some "struct"%string /\
+      EmitReaders.struct_name s = Some (tname +++ "Vftable") /\
+      EmitReaders.struct_vis s = Some v /\
+      EmitReaders.struct_repr s = Some (EmitReaders.ReprAlign (reg_ptr R)) /\
+      EmitReaders.struct_fields s = Some efs /\ Forall2 (EmitFnShape.slot_of_function owner) fs efs.
+Proof. exact EmitFnShape.vftable_item_struct_shape. Qed.
+Print Assumptions C04_vftable_item_struct.
+
+Theorem C04_slot_and_wrapper_abi :
+  forall (owner : path) (f : sfunction) (ef : EmitReaders.efield),
+    EmitFnShape.slot_of_function owner f ef ->
+    EmitFnReaders.fnptr_abi (EmitReaders.ef_ty ef) =
+    Some (EmitFnReaders.fp_abi (EmitFnShape.wrapper_fnptr f)).
+Proof. exact EmitFnShape.slot_and_wrapper_abi. Qed.
+Print Assumptions C04_slot_and_wrapper_abi.
